@@ -1,10 +1,20 @@
 package main
 
 // C20: facts about how pkg/repl/history.go and stash.go touch the file system, regenerated on every
-// run: the flags of every os.OpenFile call (by method and file expression) and the file-system calls
-// of History.Add in source order. Theorems/GenC20.lean states the obligations the crash model relies
-// on (compaction truncates the temporary file, rewrites truncate, appends append, the rename follows
-// the close).
+// run:
+//   opens   — the flags of every os.OpenFile call reached from History.Add/Clear and Stash.Add/Clear
+//             (by method and file expression),
+//   fsPaths — for each of these methods the file-system calls along every path, in execution order:
+//             a token per call ("open:<tmp|file>:<trunc|append>", "write", "close",
+//             "rename:<src>:<dst>", …), "write*" for a call inside a loop, one path per arm of an
+//             if/else whose arms both touch the file system, deferred calls at the end (a deferred
+//             close after an explicit one is the usual double close and is dropped).
+// Calls of functions and methods declared in the same two files are followed one level deep with
+// their parameters replaced by the caller's arguments, so moving an open or the write loop into a
+// helper does not change what is generated, while a helper that opens with other flags does.
+// Theorems/GenC20.lean states the obligations the crash model relies on (compaction truncates the
+// temporary file, rewrites truncate, appends append, and every path is the model's call pattern —
+// the rename follows the close).
 
 import (
 	"fmt"
@@ -16,64 +26,345 @@ import (
 	"strings"
 )
 
+type hcPath struct {
+	toks     []string
+	deferred []string
+}
+
+type hcWalker struct {
+	fset   *token.FileSet
+	decls  map[string]*ast.FuncDecl // by bare name
+	assign map[string]string        // identifier → text of the expression it was defined with
+	method string
+	opens  *[]string
+}
+
+func (w *hcWalker) text(n ast.Node) string {
+	var b strings.Builder
+	_ = printer.Fprint(&b, w.fset, n)
+	return b.String()
+}
+
+func (w *hcWalker) sub(e ast.Expr, subst map[string]string) string {
+	t := w.text(e)
+	if s, ok := subst[t]; ok {
+		return s
+	}
+	return t
+}
+
+// fileTok names the file an expression denotes: the method's own file, its temporary file, or the text
+func (w *hcWalker) fileTok(t string) string {
+	if strings.HasSuffix(t, ".filename") || t == "filename" {
+		return "file"
+	}
+	if def, ok := w.assign[t]; ok && strings.Contains(def, ".tmp") {
+		return "tmp"
+	}
+	if strings.Contains(t, ".tmp") {
+		return "tmp"
+	}
+	return t
+}
+
+// callTok classifies one call; "" = not a file-system call, "@name" = a call of a local helper
+func (w *hcWalker) callTok(call *ast.CallExpr, subst map[string]string) string {
+	name := w.text(call.Fun)
+	switch name {
+	case "os.OpenFile":
+		if len(call.Args) != 3 {
+			return "open:?"
+		}
+		fileExpr := w.sub(call.Args[0], subst)
+		var flags []string
+		trunc := false
+		for _, fl := range strings.Split(w.sub(call.Args[1], subst), "|") {
+			fl = strings.TrimPrefix(strings.TrimSpace(fl), "os.")
+			if fl == "O_TRUNC" {
+				trunc = true
+			}
+			flags = append(flags, fmt.Sprintf("%q", fl))
+		}
+		*w.opens = append(*w.opens, fmt.Sprintf("  (%q, %q, [%s])", w.method, w.fileTok(fileExpr), strings.Join(flags, ", ")))
+		mode := "append"
+		if trunc {
+			mode = "trunc"
+		}
+		return "open:" + w.fileTok(fileExpr) + ":" + mode
+	case "os.Rename":
+		if len(call.Args) != 2 {
+			return "rename:?"
+		}
+		return "rename:" + w.fileTok(w.sub(call.Args[0], subst)) + ":" + w.fileTok(w.sub(call.Args[1], subst))
+	case "os.WriteFile":
+		return "writefile"
+	case "os.Remove", "os.RemoveAll":
+		return "remove"
+	case "os.Truncate":
+		return "truncate"
+	case "os.Create":
+		return "create"
+	case "os.Link", "os.Symlink":
+		return "link"
+	}
+	if sel, ok := call.Fun.(*ast.SelectorExpr); ok {
+		if _, isIdent := sel.X.(*ast.Ident); isIdent {
+			switch sel.Sel.Name {
+			case "Write", "WriteString":
+				return "write"
+			case "Close":
+				return "close"
+			case "Truncate":
+				return "truncate"
+			case "Sync":
+				return "sync"
+			}
+		}
+		if _, ok := w.decls[sel.Sel.Name]; ok {
+			return "@" + sel.Sel.Name
+		}
+		return ""
+	}
+	if id, ok := call.Fun.(*ast.Ident); ok {
+		if _, ok := w.decls[id.Name]; ok {
+			return "@" + id.Name
+		}
+	}
+	return ""
+}
+
+// calls returns the tokens of the calls inside a node in source order (function literals included:
+// `defer func() { _ = f.Close() }()`), following local helpers while depth > 0
+func (w *hcWalker) calls(n ast.Node, subst map[string]string, depth int, loop bool) []hcPath {
+	paths := []hcPath{{}}
+	if n == nil {
+		return paths
+	}
+	ast.Inspect(n, func(x ast.Node) bool {
+		call, ok := x.(*ast.CallExpr)
+		if !ok {
+			return true
+		}
+		// arguments first (they are evaluated before the call)
+		for _, a := range call.Args {
+			paths = hcSeq(paths, w.calls(a, subst, depth, loop))
+		}
+		if fl, ok := call.Fun.(*ast.FuncLit); ok {
+			paths = hcSeq(paths, w.stmts(fl.Body.List, subst, depth, loop))
+			return false
+		}
+		tok := w.callTok(call, subst)
+		switch {
+		case tok == "":
+		case strings.HasPrefix(tok, "@"):
+			if depth > 0 {
+				fd := w.decls[tok[1:]]
+				inner := map[string]string{}
+				i := 0
+				for _, fld := range fd.Type.Params.List {
+					for _, nm := range fld.Names {
+						if i < len(call.Args) {
+							inner[nm.Name] = w.sub(call.Args[i], subst)
+						}
+						i++
+					}
+				}
+				sub := w.stmts(fd.Body.List, inner, depth-1, loop)
+				for i := range sub { // the helper's deferred calls run when it returns
+					sub[i] = hcFinish(sub[i])
+				}
+				paths = hcSeq(paths, sub)
+			}
+		default:
+			if loop && !strings.HasSuffix(tok, "*") {
+				tok += "*"
+			}
+			paths = hcSeq(paths, []hcPath{{toks: []string{tok}}})
+		}
+		return false
+	})
+	return paths
+}
+
+func hcSeq(a, b []hcPath) []hcPath {
+	var out []hcPath
+	for _, x := range a {
+		for _, y := range b {
+			p := hcPath{toks: append(append([]string{}, x.toks...), y.toks...), deferred: append(append([]string{}, x.deferred...), y.deferred...)}
+			out = append(out, p)
+		}
+	}
+	return out
+}
+
+// hcFinish appends the deferred calls (last deferred first); a deferred close when the path already
+// closes explicitly as often as it opens is the harmless double close and is dropped
+func hcFinish(p hcPath) hcPath {
+	toks := append([]string{}, p.toks...)
+	for i := len(p.deferred) - 1; i >= 0; i-- {
+		t := p.deferred[i]
+		if t == "close" {
+			opens, closes := 0, 0
+			for _, x := range toks {
+				if strings.HasPrefix(x, "open:") {
+					opens++
+				}
+				if x == "close" {
+					closes++
+				}
+			}
+			if closes >= opens {
+				continue
+			}
+		}
+		toks = append(toks, t)
+	}
+	// a loop writes any number of times: adjacent "write*" tokens are one
+	var out []string
+	for _, t := range toks {
+		if t == "write*" && len(out) > 0 && out[len(out)-1] == "write*" {
+			continue
+		}
+		out = append(out, t)
+	}
+	return hcPath{toks: out}
+}
+
+func (w *hcWalker) hasFS(n ast.Node, subst map[string]string, depth int) bool {
+	if n == nil {
+		return false
+	}
+	saved := *w.opens
+	ps := w.calls(n, subst, depth, false)
+	*w.opens = saved
+	for _, p := range ps {
+		if len(p.toks) > 0 || len(p.deferred) > 0 {
+			return true
+		}
+	}
+	return false
+}
+
+func (w *hcWalker) stmts(list []ast.Stmt, subst map[string]string, depth int, loop bool) []hcPath {
+	paths := []hcPath{{}}
+	for _, st := range list {
+		switch s := st.(type) {
+		case *ast.DeferStmt:
+			d := w.calls(s.Call, subst, depth, loop)
+			var flat []string
+			for _, p := range d {
+				flat = append(flat, p.toks...)
+			}
+			for i := range paths {
+				paths[i].deferred = append(paths[i].deferred, flat...)
+			}
+		case *ast.IfStmt:
+			if s.Init != nil {
+				paths = hcSeq(paths, w.stmts([]ast.Stmt{s.Init}, subst, depth, loop))
+			}
+			paths = hcSeq(paths, w.calls(s.Cond, subst, depth, loop))
+			var elseList []ast.Stmt
+			switch e := s.Else.(type) {
+			case *ast.BlockStmt:
+				elseList = e.List
+			case *ast.IfStmt:
+				elseList = []ast.Stmt{e}
+			}
+			if s.Else != nil && w.hasFS(s.Body, subst, depth) && w.hasFS(s.Else, subst, depth) {
+				a := hcSeq(paths, w.stmts(s.Body.List, subst, depth, loop))
+				b := hcSeq(paths, w.stmts(elseList, subst, depth, loop))
+				paths = append(a, b...)
+			} else {
+				paths = hcSeq(paths, w.stmts(s.Body.List, subst, depth, loop))
+				paths = hcSeq(paths, w.stmts(elseList, subst, depth, loop))
+			}
+		case *ast.ForStmt:
+			paths = hcSeq(paths, w.stmts(s.Body.List, subst, depth, true))
+		case *ast.RangeStmt:
+			paths = hcSeq(paths, w.stmts(s.Body.List, subst, depth, true))
+		case *ast.BlockStmt:
+			paths = hcSeq(paths, w.stmts(s.List, subst, depth, loop))
+		default:
+			paths = hcSeq(paths, w.calls(st, subst, depth, loop))
+		}
+	}
+	return paths
+}
+
 func init() {
 	generators["HistoryCode"] = func(repo string) (string, error) {
-		var opens []string
-		var addCalls []string
+		fset := token.NewFileSet()
+		decls := map[string]*ast.FuncDecl{}
+		type target struct {
+			method string
+			fd     *ast.FuncDecl
+		}
+		var targets []target
+		assign := map[string]string{}
+		tmpW := &hcWalker{fset: fset}
 		for _, file := range []string{"history.go", "stash.go"} {
-			fset := token.NewFileSet()
 			f, err := parser.ParseFile(fset, filepath.Join(repo, "pkg", "repl", file), nil, 0)
 			if err != nil {
 				return "", err
 			}
-			text := func(n ast.Node) string {
-				var b strings.Builder
-				_ = printer.Fprint(&b, fset, n)
-				return b.String()
-			}
 			for _, d := range f.Decls {
 				fd, ok := d.(*ast.FuncDecl)
-				if !ok || fd.Recv == nil || fd.Body == nil || len(fd.Recv.List) == 0 {
+				if !ok || fd.Body == nil {
 					continue
 				}
-				recv := strings.TrimPrefix(text(fd.Recv.List[0].Type), "*")
-				method := recv + "." + fd.Name.Name
+				decls[fd.Name.Name] = fd
 				ast.Inspect(fd.Body, func(n ast.Node) bool {
-					if _, isDefer := n.(*ast.DeferStmt); isDefer {
-						return false // a deferred close is not a step of the sequence
-					}
-					call, ok := n.(*ast.CallExpr)
-					if !ok {
-						return true
-					}
-					name := text(call.Fun)
-					switch name {
-					case "os.OpenFile":
-						if len(call.Args) == 3 {
-							var flags []string
-							for _, fl := range strings.Split(text(call.Args[1]), "|") {
-								flags = append(flags, fmt.Sprintf("%q", strings.TrimPrefix(strings.TrimSpace(fl), "os.")))
-							}
-							opens = append(opens, fmt.Sprintf("  (%q, %q, [%s])", method, text(call.Args[0]), strings.Join(flags, ", ")))
-						}
-					}
-					if method == "History.Add" {
-						switch name {
-						case "os.OpenFile", "os.Rename", "f.Write", "f.Close", "os.WriteFile", "os.Remove", "os.Truncate", "f.Truncate", "f.Sync":
-							addCalls = append(addCalls, fmt.Sprintf("%q", name))
+					if as, ok := n.(*ast.AssignStmt); ok && len(as.Lhs) == 1 && len(as.Rhs) == 1 {
+						if id, ok := as.Lhs[0].(*ast.Ident); ok {
+							assign[id.Name] = tmpW.text(as.Rhs[0])
 						}
 					}
 					return true
 				})
+				if fd.Recv != nil && len(fd.Recv.List) > 0 {
+					recv := strings.TrimPrefix(tmpW.text(fd.Recv.List[0].Type), "*")
+					targets = append(targets, target{recv + "." + fd.Name.Name, fd})
+				}
 			}
+		}
+		want := map[string]bool{"History.Add": true, "History.Clear": true, "Stash.Add": true, "Stash.Clear": true}
+		var opens []string
+		var pathLines []string
+		found := 0
+		for _, t := range targets {
+			if !want[t.method] {
+				continue
+			}
+			found++
+			// the methods themselves are not helpers of each other
+			local := map[string]*ast.FuncDecl{}
+			for k, v := range decls {
+				if k != "Add" && k != "Clear" && k != "Load" && k != "LoadExpanded" {
+					local[k] = v
+				}
+			}
+			w := &hcWalker{fset: fset, decls: local, assign: assign, method: t.method, opens: &opens}
+			var ps []string
+			for _, p := range w.stmts(t.fd.Body.List, map[string]string{}, 1, false) {
+				p = hcFinish(p)
+				var q []string
+				for _, tok := range p.toks {
+					q = append(q, fmt.Sprintf("%q", tok))
+				}
+				ps = append(ps, "["+strings.Join(q, ", ")+"]")
+			}
+			pathLines = append(pathLines, fmt.Sprintf("  (%q, [%s])", t.method, strings.Join(ps, ", ")))
+		}
+		if found != len(want) {
+			return "", fmt.Errorf("History.Add/Clear, Stash.Add/Clear: only %d of %d methods found", found, len(want))
 		}
 		var b strings.Builder
 		b.WriteString("/- GENERATED by extract/history.go from pkg/repl/history.go and pkg/repl/stash.go — do not edit -/\n")
 		b.WriteString("namespace SlipVerif.Gen.HistoryCode\n\n")
-		b.WriteString("/-- (method, file expression, flags) of every os.OpenFile call -/\n")
+		b.WriteString("/-- (method, file: the method's own `file` or its `tmp`, flags) of every os.OpenFile call (helpers followed one level) -/\n")
 		b.WriteString("def opens : List (String × String × List String) := [\n" + strings.Join(opens, ",\n") + "]\n\n")
-		b.WriteString("/-- the file-system calls of History.Add in source order (deferred calls excluded) -/\n")
-		b.WriteString("def addCalls : List String := [" + strings.Join(addCalls, ", ") + "]\n\n")
+		b.WriteString("/-- the file-system calls along every path of each method, in execution order -/\n")
+		b.WriteString("def fsPaths : List (String × List (List String)) := [\n" + strings.Join(pathLines, ",\n") + "]\n\n")
 		b.WriteString("end SlipVerif.Gen.HistoryCode\n")
 		return b.String(), nil
 	}
